@@ -108,7 +108,8 @@ def unitaries(H):
 
 
 # ----------------------------------------------------------------------------- source programs
-SQ_VARIANTS = ["none", "S2(0)", "S2(1)", "S2(.5)", "twice", "reversed", "wrong-pair", "sandwich"]
+SQ_VARIANTS = ["none", "S2(0)", "S2(1)", "S2(.5)", "twice", "reversed", "wrong-pair", "sandwich", "S2(1,.7)", "twice(.7)"]
+PHASED = ("S2(1,.7)", "twice(.7)")
 INTF_VARIANTS = ["Interferometer", "words", "different-halves", "mixing-halves", "first-half-only"]
 MEAS_VARIANTS = ["all", "subset", "split", "gate-after"]
 
@@ -139,6 +140,16 @@ def build_source(H, sqv, uname, U, intf, meas, order):
                     cmds.append((ops.S2gate(0.5, 0.0), (i, i + H)))
                     cmds.append((ops.S2gate(0.5, 0.0), (i, i + H)))
                     sq_vals[i] = 1.0
+                elif v == "S2(1,.7)":
+                    # a squeezer phase the layouts fix at zero: only a compiler that works on the state (Xcov) may absorb it
+                    cmds.append((ops.S2gate(1.0, 0.7), (i, i + H)))
+                    sq_vals[i] = 1.0
+                    admissible, reason = False, "squeezer-phase the layout fixes at zero"
+                elif v == "twice(.7)":
+                    cmds.append((ops.S2gate(0.5, 0.7), (i, i + H)))
+                    cmds.append((ops.S2gate(0.5, 0.7), (i, i + H)))
+                    sq_vals[i] = 1.0
+                    admissible, reason = False, "squeezer-phase the layout fixes at zero"
                 elif v == "sandwich":
                     # a passive gate between two squeezers of one pair: the compiler may refuse it or compile it faithfully
                     cmds.append((ops.S2gate(0.3, 0.0), (i, i + H)))
@@ -365,16 +376,46 @@ def check_case(H, devkw, compiler, sqv, uname, U, intf, meas, order, res, prev_d
     return True
 
 
+def check_nodevice(H, sqv, uname, U, res):
+    """Xunitary without a device specification: nothing fixes the squeezer phases, the compiled circuit must prepare exactly
+    the source's Gaussian state (the compiler works at the level of the interferometer unitary)"""
+    n = 2 * H
+    case = {"nodevice": True, "H": H, "sq": list(sqv), "uname": uname, "U": [[[float(z.real), float(z.imag)] for z in row] for row in U]}
+    prog, _adm, _reason, _sq = build_source(H, sqv, uname, U, "Interferometer", "all", None)
+    compiler_db["Xunitary"].reset_circuit() if hasattr(compiler_db["Xunitary"], "reset_circuit") else None
+    try:
+        with warnings.catch_warnings():
+            warnings.simplefilter("ignore")
+            out = prog.compile(compiler="Xunitary")
+    except (CircuitError, ValueError):
+        res.stats["rejected:Xunitary-no-device"] += 1
+        return False
+    except Exception as e:
+        res.violation(f"C12|Xunitary|no-device|crash|{type(e).__name__}", f"Xunitary without a device on squeezers {sqv}, {uname} unitary raised {type(e).__name__}: {str(e)[:150]}", case)
+        return False
+    Vs, Vc = gaussian_state(prog.circuit, n), gaussian_state(out.circuit, n)
+    d = float(np.max(np.abs(Vs - Vc)))
+    if d > 1e-7:
+        res.violation("C12|Xunitary|no-device|state", f"Xunitary without a device: the compiled circuit prepares a Gaussian state that differs from the source's by {d:.3g} (squeezers {sqv}, {uname} unitary)", case)
+    return True
+
+
 def work(task):
     H, devkw, compiler, sq_list, intf_list, meas_list, with_orders, prev = task
     res = Res()
     fam = unitaries(H)
     for sqv in sq_list:
+        if compiler == "Xunitary" and devkw.get("sq") == "set01" and not devkw.get("modes_dict") and all(v in ("none", "S2(0)", "S2(1)", "S2(.5)", "twice") + PHASED for v in sqv):
+            for uname, U in fam:
+                res.n += 1
+                res.stats["xunitary_without_device"] += 1
+                if check_nodevice(H, sqv, uname, U, res):
+                    res.nt += 1
         for intf in intf_list:
             us = fam if intf in ("Interferometer",) else fam[:3]
             for uname, U in us:
                 for meas in meas_list:
-                    ncmd = sum(2 if v == "twice" else (3 if v == "sandwich" else (0 if v == "none" else 1)) for v in sqv)
+                    ncmd = sum(2 if v in ("twice", "twice(.7)") else (3 if v == "sandwich" else (0 if v == "none" else 1)) for v in sqv)
                     orders = [None]
                     if with_orders and 2 <= ncmd <= 3 and intf == "Interferometer" and uname == "identity":
                         orders = list(itertools.permutations(range(ncmd)))
@@ -498,6 +539,10 @@ def run(ctx):
 
 def replay(case):
     res = Res()
+    if case.get("nodevice"):
+        U = np.array([[complex(a, b) for a, b in row] for row in case["U"]])
+        check_nodevice(case["H"], tuple(case["sq"]), case["uname"], U, res)
+        return [(s, w) for s, w, _ in res.viol]
     if case.get("borealis"):
         from mc.checks import c12b
 
